@@ -84,7 +84,18 @@ def main(argv=None):
 
     # ---- 0. gate ----
     props_rel = spec.PROPS
-    gate = coqrun.gate_tree()
+    # the gate covers every static file this property's theorems and runner depend on (the whole tree
+    # is scanned by setup); an unrelated file cannot disturb this check
+    try:
+        from . import build as _build
+
+        _targets = [props_rel] + [
+            m.replace("SAV.", "").replace(".", "/") + ".v" for m in getattr(spec, "STATIC_MODULES", [])
+        ]
+        _closure = [os.path.join(COQ, r) for r in _build.closure(_targets)]
+        gate = coqrun.gate_tree(_closure)
+    except RuntimeError as e:
+        gate = ["dependency closure: %s" % e]
     if gate:
         broken.append({"phase": "gate", "name": "forbidden-constructs", "detail": gate[:20]})
 
@@ -185,7 +196,13 @@ def main(argv=None):
                 )
                 continue
             if c.get("model", True):
-                pairs.append((c["in"], norm_tree(r["obs"])))
+                if hasattr(spec, "model_pair"):
+                    # trace acceptance: the model input is built from what the implementation did
+                    mi, mo = spec.model_pair(c, r["obs"])
+                    c["in"] = norm_tree(mi)
+                    pairs.append((c["in"], norm_tree(mo)))
+                else:
+                    pairs.append((c["in"], norm_tree(r["obs"])))
                 idx.append(k)
         mod, fn = spec.RUNNER
         if hasattr(spec, "runner_for_run"):
@@ -259,6 +276,10 @@ def main(argv=None):
 
     status = "pass"
     replay_path = None
+    try:
+        os.remove(os.path.join(REPLAY, "%s-%d.json" % (pid, seed)))
+    except OSError:
+        pass
     if violation or broken:
         status = "violation"
         os.makedirs(REPLAY, exist_ok=True)
